@@ -41,11 +41,42 @@ def sync_extraction():
             shutil.copy(os.path.join(src, f), os.path.join(dst, f))
 
 
-def run_cases(exe, cases, env, workers, timeout=400):
+REF_MS = 260.0          # what the harness' "calibrate" op takes on an idle development machine
+SPEED = {"factor": 1.0}
+
+
+def run_cases(exe, cases, env, workers, timeout=400, slow=1.0):
+    """every case in its own harness process; all time-outs of the harness are multiplied by the measured speed
+    factor (VDRV_SPEED) and, for confirmation re-runs, by `slow` (VDRV_SLOW)"""
+    e = dict(env)
+    e["VDRV_SPEED"] = "%.2f" % SPEED["factor"]
+    e["VDRV_SLOW"] = "%.2f" % slow
+    tmo = timeout * SPEED["factor"] * slow + 60
+
     def one(c):
-        return vlib.run_driver(exe, "\n".join(c) + "\n", timeout=timeout, env=env)
+        try:
+            return vlib.run_driver(exe, "\n".join(c) + "\n", timeout=tmo, env=e)
+        except Exception as ex:                      # a run the harness' own parent-side bound did not end
+            return (-1, "", "run_driver: %r" % (ex,))
     with ThreadPoolExecutor(max_workers=workers) as ex:
         return list(ex.map(one, cases))
+
+
+def calibrate(exe, par):
+    """speed factor of this machine under this load: `par` calibration processes at the same time (the cases
+    run `par` at a time), slowest one counts; never below 1"""
+    def one(_):
+        try:
+            rc, out, err = vlib.run_driver(exe, "calibrate\n", timeout=300, env=ASAN_ENV)
+            m = re.search(r"calib ms=(\d+)", out)
+            return float(m.group(1)) if m else None
+        except Exception:
+            return None
+    with ThreadPoolExecutor(max_workers=par) as ex:
+        ms = [x for x in ex.map(one, range(par)) if x]
+    if not ms:
+        return 4.0, []
+    return min(50.0, max(1.0, max(ms) / REF_MS)), ms
 
 
 def parse_result(out):
@@ -102,7 +133,7 @@ def gen_cases(ctx):
              "stress %d %d %d %d %d %d %d %d" % (seed, y, rng.randint(1, 3), rng.randint(0, 4), rng.randint(0, 2),
                                                  rng.randint(0, 3), rng.randint(0, 8), rng.randint(0, 1))]
         cases.append(c)
-    forced = [["case %d forced" % (len(cases) + i), "force " + w] for i, w in enumerate(("lostwakeup", "iteruaf", "cursor"))]
+    forced = [["case %d forced" % (len(cases) + i), "force " + w] for i, w in enumerate(("lostwakeup", "iteruaf", "cursor", "shutdownjoin"))]
     # final-contents phases: every application operation as the LAST one, no request outstanding, then one
     # incremental request per staying client (Raw / CopyRect / CopyRect+RichCursor+PointerPos)
     nph = 5 if ctx.quick() else 40
@@ -121,6 +152,244 @@ def gen_cases(ctx):
     frag = [["case %d fragment" % (base + len(policy) + i), "fragment %d %d" % (rng.randint(1, 10 ** 6), y)]
             for i, y in enumerate((0, 20, 50, 100) if ctx.quick() else (0, 10, 20, 50, 100) * 4)]
     return cases, forced, phases, policy, frag
+
+
+# ---------------------------------------------------------------------------------------------------
+# oracles: one function per scenario, each maps ONE harness run to a list of observations
+#   (cls, msg, feat, errtext); cls is the coarse defect class used to decide whether a re-run shows
+#   "the same thing" (a hang may hit the watchdog in another phase, a crash another site)
+
+def _cls(feat):
+    d = feat.get("defect", feat.get("kind", "?"))
+    if d in ("hang",):
+        return "hang"
+    if d in ("heap-use-after-free", "SEGV", "crash", "double-free", "attempting", "stack-use-after-return") or "freed_by" in feat or "site" in feat:
+        return "crash"
+    if d == "tsan":
+        return "tsan:" + str(feat.get("kind"))
+    return str(d)
+
+
+def _generic(d, out, err, rc):
+    """crash / watchdog of any scenario"""
+    if rc == 124 and "result " not in out:
+        return [("hang", "the run did not end within the outer bound", {"defect": "hang", "phase": "outer-bound"}, err)]
+    if d.get("crash") == "1":
+        feat = asan_features(err)
+        return [("crash", "the process crashed / AddressSanitizer reported %s" % (feat,), feat, asan_head(err))]
+    if d.get("hang") == "1":
+        return [("hang", "watchdog: phase '%s' did not return" % d.get("phase"), {"defect": "hang", "phase": d.get("phase", "?")}, err)]
+    return []
+
+
+def judge_stress(c, r, model):
+    rc, out, err = r
+    d = parse_result(out)
+    info = {"d": d, "completed": False}
+    obs = _generic(d, out, err, rc)
+    if obs:
+        return obs, info
+    if "result " not in out:
+        feat = asan_features(err)
+        return [("crash", "the process ended without a result / AddressSanitizer reported %s" % (feat,), feat, asan_head(err))], info
+    if "error" in d:
+        return [("setup", "the stress run could not set itself up (%s)" % d.get("error"), {"defect": "crash", "site": "setup"}, err)], info
+    info["completed"] = True
+    if d.get("new") != d.get("gone") or d.get("dupgone", "0") != "0":
+        obs.append(("gone_count", "clientGoneHook ran %s times for %s accepted clients (%s on unknown records)" %
+                    (d.get("gone"), d.get("new"), d.get("dupgone")), {"defect": "gone_count"}, ""))
+    if d.get("converged") != d.get("stay") or d.get("stay_ok") != d.get("stay"):
+        obs.append(("final_contents", "%s of %s staying clients ended with the final framebuffer contents (%s kept a well-formed stream)" %
+                    (d.get("converged"), d.get("stay"), d.get("stay_ok")), {"defect": "final_contents"}, ""))
+    n = int(d.get("cycles", 0))
+    z = int(d.get("zombies_after_cycles", 0))
+    if int(d.get("stuck_after_cycles", 0)) > 0:
+        obs.append(("hang", "%s disconnected client(s) were not torn down within 10 s: clientInput is blocked joining a clientOutput thread "
+                    "that went to sleep after the last wake-up (clientGoneHook only ran at shutdown)" % d.get("stuck_after_cycles"),
+                    {"defect": "hang", "phase": "disconnect"}, ""))
+    elif z != model["zombies"].get(n, -1):
+        obs.append(("corr:zombies", "never-joined threads after %d cycles: model %s, implementation %d" % (n, model["zombies"].get(n), z),
+                    {"kind": "correspondence"}, ""))
+    if z != 0:
+        obs.append(("threads_not_reclaimed", "%d client threads that have ended were never joined after %d connect/disconnect cycles "
+                    "(resources grow with the number of past connections)" % (z, n), {"defect": "threads_not_reclaimed"}, ""))
+    for pr in d.get("pairs", []):
+        if ("G" not in pr[:2] or pr in model["table"]) and pr not in model["table"]:
+            if pr in model["palette"]:
+                obs.append(("inversion:" + pr, "lock-order inversion observed: mutex class pair %s (held->acquired) is taken in the order the "
+                            "model's rank forbids" % pr, {"defect": "lock_order_inversion"}, ""))
+            else:
+                obs.append(("corr:pair:" + pr, "mutex-class pair %s (held->acquired) is not in the model's table" % pr, {"kind": "correspondence"}, ""))
+    return obs, info
+
+
+def judge_forced(c, r, model):
+    rc, out, err = r
+    d = parse_result(out)
+    what = c[1].split()[1]
+    info = {"d": d, "what": what, "seen": False, "completed": True}
+    obs = []
+    if what == "lostwakeup":
+        info["seen"] = d.get("hang") == "1"
+        if d.get("hang") == "1" or rc == 124:
+            obs.append(("hang", "forced schedule (clientOutput preempted between the unlocked test of cl->state and LOCK(updateMutex), "
+                        "rfbCloseClient preempted between UNLOCK(updateMutex) and state = RFB_SHUTDOWN): rfbShutdownServer never returns",
+                        {"defect": "hang", "phase": d.get("phase", "?")}, ""))
+        elif d.get("crash") == "1":
+            obs += _generic(d, out, err, rc)
+    elif what == "iteruaf":
+        uaf = "heap-use-after-free" in err
+        info["seen"] = uaf
+        if uaf:
+            feat = asan_features(err)
+            obs.append(("crash", "forced schedule (iterator preempted between reading the next pointer and rfbIncrClientRef while the peer "
+                        "disconnects): heap-use-after-free in %s" % feat.get("site"), feat, asan_head(err)))
+        else:
+            obs += _generic(d, out, err, rc)
+    elif what == "shutdownjoin":
+        uaf = "heap-use-after-free" in err
+        info["seen"] = uaf
+        if uaf:
+            feat = asan_features(err)
+            obs.append(("crash", "forced schedule (rfbShutdownServer preempted right after rfbCloseClient's notification; it has already advanced its "
+                        "iterator, which dropped the only reference on currentCl): the client thread frees the record, rfbShutdownServer then reads "
+                        "currentCl->screen / currentCl->client_thread: heap-use-after-free in %s" % feat.get("site"), feat, asan_head(err)))
+        else:
+            obs += _generic(d, out, err, rc)
+    elif what == "cursor":
+        b = int(d.get("burned_pixels", 0) or 0)
+        info["seen"] = b > 0
+        if b > 0:
+            obs.append(("cursor_burned", "forced schedule (two clientOutput threads inside their rfbShowCursor/rfbHideCursor brackets at the same "
+                        "time): %d pixels of the cursor stay painted in the application's framebuffer" % b, {"defect": "cursor_burned"}, ""))
+        else:
+            obs += _generic(d, out, err, rc)
+    return obs, info
+
+
+def _setup(what, out):
+    return ("setup", "%s run could not set its clients up (could not connect / initial picture did not arrive): %s" % (what, out[-200:].strip()),
+            {"defect": "crash", "site": "setup"}, "")
+
+
+def judge_phases(c, r, model):
+    rc, out, err = r
+    d = parse_result(out)
+    info = {"d": d, "completed": False}
+    if "p_phases" not in d:
+        obs = _generic(d, out, err, rc)
+        return (obs or [_setup("final-contents", out)]), info
+    obs = []
+    if int(d.get("p_phasefails", 0)) > 0:
+        first = d.get("p_failed", "[?]")[1:].split(",")[0].rstrip("]")
+        op, kind, how = (first.split(":") + ["?", "?", "?"])[:3]
+        obs.append(("final_contents", "a staying client did not end up with the final framebuffer: after the application's last operation '%s' "
+                    "(no request outstanding) the client of kind %s (k0 Raw, k1 CopyRect+Raw, k2 CopyRect+Raw+RichCursor+PointerPos) sent one "
+                    "incremental request and got %s within 10 s; all failures of the run: %s" %
+                    (op, kind, "no update" if how == "noupdate" else "a malformed stream", d.get("p_failed")),
+                    {"defect": "final_contents", "after": op}, ""))
+    else:
+        info["completed"] = True
+    obs += _generic(d, out, err, rc)
+    return obs, info
+
+
+def judge_policy(c, r, model):
+    rc, out, err = r
+    d = parse_result(out)
+    p = c[1].split()
+    info = {"d": d, "completed": False}
+    if "p_policy_ok" not in d:
+        obs = _generic(d, out, err, rc)
+        return (obs or [_setup("sharing-policy", out)]), info
+    obs = []
+    if d.get("p_policy_ok") != "1":
+        obs.append(("sharing_policy", "sharing policy under the background loop: alwaysShared=%s neverShared=%s dontDisconnect=%s, newcomer shared=%s: first client "
+                    "%s, newcomer %s (1 = served, 0 = closed by the server, -1 = silent)" % (p[3], p[4], p[5], p[6], d.get("p_a"), d.get("p_b")),
+                    {"defect": "sharing_policy"}, ""))
+    if d.get("p2_torn_down_in_time") == "0":
+        obs.append(("not_torn_down", "after the sharing decision (alwaysShared=%s neverShared=%s dontDisconnect=%s, newcomer shared=%s) a connection that ended "
+                    "(route %s: 0 peer close, 1 rfbCloseClient) was not torn down within 10 s: clientGoneHook ran %s times for %s clients" %
+                    (p[3], p[4], p[5], p[6], p[7], d.get("p2_gone"), d.get("p2_new")), {"defect": "not_torn_down"}, ""))
+    g = _generic(d, out, err, rc)
+    if g:
+        obs += g
+    elif "new" in d and (d.get("new") != d.get("gone") or d.get("dupgone", "0") != "0"):
+        obs.append(("gone_count", "clientGoneHook ran %s times for %s accepted clients" % (d.get("gone"), d.get("new")), {"defect": "gone_count"}, ""))
+    info["completed"] = not obs
+    return obs, info
+
+
+def judge_fragment(c, r, model):
+    rc, out, err = r
+    d = parse_result(out)
+    info = {"d": d, "completed": False}
+    if "p_fragment_ok" not in d:
+        obs = _generic(d, out, err, rc)
+        return (obs or [_setup("fragmented-update", out)]), info
+    obs = []
+    if d.get("p_rects_in_first_update") != "1" or d.get("p_write_blocked", "0") == "0":
+        info["inconclusive"] = "fragment scenario did not produce the blocked bounding-box update: " + out[-200:]
+    elif d.get("p_fragment_ok") != "1":
+        obs.append(("final_contents", "a staying client did not end up with the final framebuffer: an update of 60 separate squares went out as its bounding box to a "
+                    "slow reader; while the output thread was blocked in write() the application changed and marked a pixel inside the box; after the "
+                    "update and further incremental requests %s pixel(s) still differ (the mark placed during the send was lost)" % d.get("p_diff"),
+                    {"defect": "final_contents", "after": "mark_during_send"}, ""))
+    else:
+        info["completed"] = True
+    obs += _generic(d, out, err, rc)
+    return obs, info
+
+
+# TSan: lock-order-inversion / mutex misuse only (data races are outside this check).
+# Reports are classified by ROOT CAUSE, not by the sanitizer's wording.  The iterator window
+# (C13-N2: a client record is torn down by rfbClientConnectionGone while an iterating thread still
+# works on it) shows as heap-use-after-free, "use of an invalid mutex", "unlock of an unlocked mutex",
+# "destroy of a locked mutex", ... depending on where the two threads are.
+ITER_USERS = ("rfbClientIteratorNext", "rfbIncrClientRef", "rfbDecrClientRef", "rfbReleaseClientIterator",
+              "rfbMarkRegionAsModified", "rfbMarkRectAsModified", "rfbSendBell", "rfbSendServerCutText",
+              "rfbNewFramebuffer", "rfbSetCursor", "rfbScheduleCopyRegion", "rfbDoCopyRegion", "rfbDoCopyRect",
+              "rfbDefaultPtrAddEvent", "rfbRedrawAfterHideCursor", "rfbShutdownServer", "rfbScreenCleanup",
+              "rfbGetClientIterator")
+TEARDOWN_KINDS = ("heap-use-after-free", "use of an invalid mutex", "unlock of an unlocked mutex",
+                  "destroy of a locked mutex", "double lock", "read lock of a write locked mutex")
+
+
+def judge_tsan(c, r, model):
+    rc, out, err = r
+    obs = []
+    seen = set()
+    parts = err.split("==================")
+    race_seen = any("rfbClientConnectionGone" in q and "ThreadSanitizer" in q and not q.lstrip().startswith("WARNING: ThreadSanitizer: data race")
+                    for q in parts)
+    for rr in parts:
+        m = re.search(r"WARNING: ThreadSanitizer: ([^\n(]+)", rr)
+        if not m:
+            continue
+        kind = m.group(1).strip()
+        if kind.startswith("data race") or kind.startswith("signal"):
+            continue
+        if kind.startswith("thread leak") and "rfbStartOnHoldClient" in rr:
+            item = ("threads_not_reclaimed", "ThreadSanitizer: " + kind, {"defect": "threads_not_reclaimed"}, rr[:4000])   # ended client threads never joined
+        elif any(kind.startswith(tk) for tk in TEARDOWN_KINDS) and \
+                ("rfbClientConnectionGone" in rr or any(u in rr for u in ITER_USERS) or
+                 ("rfbNewTCPOrUDPClient" in rr and (race_seen or not kind.startswith("unlock")))):
+            # a mutex "created at rfbNewTCPOrUDPClient" lives in a client record
+            feat = {"defect": "heap-use-after-free", "freed_by": "rfbClientConnectionGone"}
+            if re.search(r"#[0-2] [^\n]*rfbShutdownServer", rr):
+                feat["site"] = "rfbShutdownServer"       # C13-N3: the join in rfbShutdownServer after the reference was dropped
+            item = ("crash", "ThreadSanitizer: iterator window: " + kind + (" in rfbShutdownServer" if "site" in feat else ""), feat, rr[:4000])
+        else:
+            item = ("tsan:" + kind.split()[0], "ThreadSanitizer: " + kind, {"defect": "tsan", "kind": kind.split()[0]}, rr[:4000])
+        if item[1] not in seen:
+            seen.add(item[1])
+            obs.append(item)
+    return obs, {"d": {}, "completed": True}
+
+
+JUDGES = {"stress": judge_stress, "forced": judge_forced, "phases": judge_phases, "policy": judge_policy,
+          "fragment": judge_fragment, "tsan": judge_tsan}
+RERUNS = 3
 
 
 def check(ctx):
@@ -144,268 +413,163 @@ def check(ctx):
             model["zombies"][int(p[1])] = int(p[2].split("=")[1])
         elif p[0] == "witness":
             model["witness"].append(l)
+
+    # speed of this machine under the present load: scales every time-out of the harness
     workers = 5
-    res = run_cases(cexe, cases, ASAN_ENV, workers)
-    fres = run_cases(cexe, forced, ASAN_ENV, 3)
-    pres = run_cases(cexe, phases, ASAN_ENV, 5)
-    polres = run_cases(cexe, policy, ASAN_ENV, 5)
-    fragres = run_cases(cexe, frag, ASAN_ENV, 4)
-    tsan_lines = []
+    factor, calib_ms = calibrate(cexe, workers)
+    SPEED["factor"] = factor
+    reduced = None
+    if factor >= 2.5:
+        workers = 3
+    if factor >= 4.0 and ctx.quick():
+        reduced = "speed factor %.1f: quick tier reduced to 8 stress / 3 phase / 6 policy / 2 fragment runs" % factor
+        cases, phases, policy, frag = cases[:8], phases[:3], policy[::2], frag[:2]
+
+    texe = None
     tsan_cases = cases[:2] if ctx.quick() else cases[:12]
     try:
         texe = vlib.build_harness("vdrv_threads", ["vdrv_threads.c"], wraps=WRAPS, variant="tsan")
-        tres = run_cases(texe, tsan_cases, TSAN_ENV, 2, timeout=900)
     except vlib.BuildError as e:
-        tres = []
+        tsan_cases = []
         ctx.assumptions.append("TSan build unavailable: " + str(e)[:120])
 
-    hist = {"stress": len(cases), "forced": len(forced), "phases": len(phases), "policy": len(policy), "fragment": len(frag), "tsan": len(tres)}
-    pairs_seen = set()
-    nstress_ok = 0
-    mism = []
+    def exe_env(kind):
+        return (texe, TSAN_ENV, 900) if kind == "tsan" else (cexe, ASAN_ENV, 400)
+
+    groups = [("stress", cases, workers), ("forced", forced, 4), ("phases", phases, workers), ("policy", policy, workers),
+              ("fragment", frag, min(4, workers)), ("tsan", tsan_cases, 2)]
+    runs = []                      # (kind, case, result, observations, info)
+    for kind, cs, w in groups:
+        if not cs:
+            continue
+        exe, env, tmo = exe_env(kind)
+        for c, r in zip(cs, run_cases(exe, cs, env, w, timeout=tmo)):
+            obs, info = JUDGES[kind](c, r, model)
+            runs.append((kind, c, r, obs, info))
+
+    # ---- CONFIRM BEFORE ALARM.  An observation that is not a known finding is reported only if exactly that
+    # scenario (same seed, same forced schedule) shows the same class of defect again in the majority of RERUNS
+    # fresh processes with doubled time-outs (or the class shows in >= 4 first runs and >= 3 re-runs).
+    unknown = {}                   # cls -> list of indices into runs
+    for i, (kind, c, r, obs, info) in enumerate(runs):
+        for (cls, msg, feat, etxt) in obs:
+            if feat.get("kind") == "correspondence" or vlib.match_finding("C13", feat) is None:
+                unknown.setdefault(cls, [])
+                if i not in unknown[cls]:
+                    unknown[cls].append(i)
+    jobs = []                      # (cls, run index)
+    for cls, idx in sorted(unknown.items()):
+        for i in idx[:3]:
+            jobs += [(cls, i)] * RERUNS
+    rerun_hits = {}                # (cls, i) -> hits
+    rerun_total = {}               # cls -> hits in all re-runs
+    if jobs:
+        vlib.log("C13: %d observation class(es) to confirm: %s" % (len(unknown), sorted(unknown)))
+        uniq = sorted(set(i for (_, i) in jobs))
+        rr = {}
+        for kind in ("stress", "forced", "phases", "policy", "fragment", "tsan"):
+            ii = [i for i in uniq if runs[i][0] == kind]
+            if not ii:
+                continue
+            exe, env, tmo = exe_env(kind)
+            rcases = [runs[i][1] for i in ii for _ in range(RERUNS)]
+            res = run_cases(exe, rcases, env, 2 if kind == "tsan" else min(6, max(3, workers)), timeout=tmo, slow=2.0)
+            for n, i in enumerate(ii):
+                rr[i] = [JUDGES[kind](runs[i][1], res[n * RERUNS + k], model)[0] for k in range(RERUNS)]
+        for cls, idx in unknown.items():
+            for i in idx[:3]:
+                h = sum(1 for o in rr[i] if any(x[0] == cls for x in o))
+                rerun_hits[(cls, i)] = h
+                rerun_total[cls] = rerun_total.get(cls, 0) + h
+    confirmed = set()
+    for cls, idx in unknown.items():
+        if any(rerun_hits.get((cls, i), 0) * 2 > RERUNS for i in idx[:3]) or (len(idx) >= 4 and rerun_total.get(cls, 0) >= 3):
+            confirmed.add(cls)
+    unconfirmed = []
 
     def report(msg, feat, case, out, err=""):
         ctx.violation("threaded event loop (sampled run): " + msg, feat,
                       "script:\n" + "\n".join(case) + "\n\nimplementation output:\n" + out[-3000:] +
                       ("\n\nstderr:\n" + err[-4000:] if err else ""))
 
-    for c, (rc, out, err) in zip(cases, res):
-        d = parse_result(out)
-        if d.get("crash") == "1" or "result" not in out:
-            feat = asan_features(err)
-            report("the process crashed / AddressSanitizer reported %s" % (feat,), feat, c, out, asan_head(err))
-            continue
-        if d.get("hang") == "1":
-            report("watchdog: phase '%s' did not return" % d.get("phase"), {"defect": "hang", "phase": d.get("phase", "?")}, c, out, err)
-            continue
-        nstress_ok += 1
-        if d.get("new") != d.get("gone") or d.get("dupgone", "0") != "0":
-            report("clientGoneHook ran %s times for %s accepted clients (%s on unknown records)" % (d.get("gone"), d.get("new"), d.get("dupgone")),
-                   {"defect": "gone_count"}, c, out)
-        if d.get("converged") != d.get("stay") or d.get("stay_ok") != d.get("stay"):
-            report("%s of %s staying clients ended with the final framebuffer contents (%s kept a well-formed stream)" %
-                   (d.get("converged"), d.get("stay"), d.get("stay_ok")), {"defect": "final_contents"}, c, out)
-        n = int(d.get("cycles", 0))
-        z = int(d.get("zombies_after_cycles", 0))
-        if int(d.get("stuck_after_cycles", 0)) > 0:
-            report("%s disconnected client(s) were not torn down within 2 s: clientInput is blocked joining a clientOutput thread "
-                   "that went to sleep after the last wake-up (clientGoneHook only ran at shutdown)" % d.get("stuck_after_cycles"),
-                   {"defect": "hang", "phase": "disconnect"}, c, out)
-        if z != model["zombies"].get(n, -1):
-            mism.append("never-joined threads after %d cycles: model %s, implementation %d" % (n, model["zombies"].get(n), z))
-        if z != 0:
-            report("%d client threads that have ended were never joined after %d connect/disconnect cycles "
-                   "(resources grow with the number of past connections)" % (z, n), {"defect": "threads_not_reclaimed"}, c, out)
-        for p in d.get("pairs", []):
-            pairs_seen.add(p)
-    # a known race shows in a few percent of the runs; when most runs hang or crash something else is wrong
-    nh = sum(1 for (rc, out, err) in res if parse_result(out).get("hang") == "1")
-    nc = sum(1 for (rc, out, err) in res if parse_result(out).get("crash") == "1")
-    nstuck = sum(1 for (rc, out, err) in res if int(parse_result(out).get("stuck_after_cycles", 0) or 0) > 0)
-    ncyc_cases = sum(1 for c in cases if int(c[1].split()[7]) > 0)
-    # the lost wake-up leaves a disconnected client alive in up to ~20 % of the runs at high yield rates;
-    # when (almost) every run that disconnects clients shows it, teardown on disconnect is broken
-    if nstuck >= 4 and nstuck * 10 >= ncyc_cases * 7:
-        ctx.violation("threaded event loop (sampled run): in %d of %d stress runs disconnected clients are not torn down "
-                      "(clientGoneHook does not run when the connection ends) - not the rare lost wake-up" % (nstuck, len(cases)),
-                      {"defect": "gone_count"}, "script:\n" + "\n".join(cases[0]) + "\n\n%d of %d stress cases left disconnected clients alive" % (nstuck, len(cases)))
-    if nh >= max(5, (len(cases) * 35) // 100):
-        ctx.violation("threaded event loop (sampled run): %d of %d stress runs hang - not the rare lost wake-up" % (nh, len(cases)),
-                      {"defect": "hang_systematic"}, "script:\n" + "\n".join(cases[0]) + "\n\n%d of %d stress cases hit the watchdog" % (nh, len(cases)))
-    if nc >= max(4, (len(cases) * 2) // 5):
-        ctx.violation("threaded event loop (sampled run): %d of %d stress runs crash - not the rare iterator race" % (nc, len(cases)),
-                      {"defect": "crash_systematic"}, "script:\n" + "\n".join(cases[0]) + "\n\n%d of %d stress cases crashed" % (nc, len(cases)))
-    known_pairs = set(p for p in pairs_seen if "G" not in p[:2] or p in model["table"])
-    unknown_pairs = sorted(p for p in known_pairs if p not in model["table"])
-    inversions = sorted(p for p in unknown_pairs if p in model["palette"])
-    if inversions:
-        ctx.violation("lock-order inversion observed: mutex class pairs %s (held->acquired) are taken in the order the "
-                      "model's rank forbids" % inversions, {"defect": "lock_order_inversion"}, "pairs observed: %s" % sorted(pairs_seen))
-    other = [p for p in unknown_pairs if p not in inversions]
-
-    # forced-schedule replays of the model's refutation witnesses
+    hist = {"stress": len(cases), "forced": len(forced), "phases": len(phases), "policy": len(policy), "fragment": len(frag), "tsan": len(tsan_cases)}
+    pairs_seen = set()
+    done = {"stress": 0, "phases": 0, "policy": 0, "fragment": 0}
     forced_seen = {}
-    for c, (rc, out, err) in zip(forced, fres):
-        d = parse_result(out)
-        what = c[1].split()[1]
-        if what == "lostwakeup":
-            forced_seen[what] = d.get("hang") == "1"
-            if d.get("hang") == "1":
-                report("forced schedule (clientOutput preempted between the unlocked test of cl->state and LOCK(updateMutex), "
-                       "rfbCloseClient preempted between UNLOCK(updateMutex) and state = RFB_SHUTDOWN): rfbShutdownServer never returns",
-                       {"defect": "hang", "phase": d.get("phase", "?")}, c, out)
-        elif what == "iteruaf":
-            uaf = "heap-use-after-free" in err
-            forced_seen[what] = uaf
-            if uaf:
-                feat = asan_features(err)
-                report("forced schedule (iterator preempted between reading the next pointer and rfbIncrClientRef while the peer "
-                       "disconnects): heap-use-after-free in %s" % feat.get("site"), feat, c, out, asan_head(err))
-            elif d.get("crash") == "1":
-                report("forced iterator schedule crashed differently", {"defect": "crash", "site": "?"}, c, out, err)
-        elif what == "cursor":
-            b = int(d.get("burned_pixels", 0) or 0)
-            forced_seen[what] = b > 0
-            if b > 0:
-                report("forced schedule (two clientOutput threads inside their rfbShowCursor/rfbHideCursor brackets at the same "
-                       "time): %d pixels of the cursor stay painted in the application's framebuffer" % b,
-                       {"defect": "cursor_burned"}, c, out)
-    # final-contents phases
-    nphase_ok = 0
-    ninconclusive = []
-    for c, (rc, out, err) in zip(phases, pres):
-        d = parse_result(out)
-        if "p_phases" not in d:
-            if d.get("crash") == "1":
-                feat = asan_features(err)
-                report("phases run crashed / AddressSanitizer reported %s" % (feat,), feat, c, out, asan_head(err))
-            elif d.get("hang") == "1":
-                report("watchdog: phase '%s' did not return" % d.get("phase"), {"defect": "hang", "phase": d.get("phase", "?")}, c, out, err)
+    inconclusive = []
+    corr = []
+    reported_tsan = set()
+    for i, (kind, c, r, obs, info) in enumerate(runs):
+        rc, out, err = r
+        if kind in done and info.get("completed"):
+            done[kind] += 1
+        if kind == "forced":
+            forced_seen[info["what"]] = info["seen"]
+        if info.get("inconclusive"):
+            inconclusive.append(info["inconclusive"])
+        for pr in info["d"].get("pairs", []):
+            pairs_seen.add(pr)
+        for (cls, msg, feat, etxt) in obs:
+            is_corr = feat.get("kind") == "correspondence"
+            if not is_corr and vlib.match_finding("C13", feat) is not None:
+                report(msg, feat, c, out, etxt)           # recorded as KNOWN-FINDING by vlib
+                continue
+            if cls not in confirmed:
+                if cls == "setup":
+                    inconclusive.append(msg)
+                unconfirmed.append({"what": msg[:300], "features": feat, "case": c[1],
+                                    "reruns_showing_it": "%s/%d" % (rerun_hits.get((cls, i), "-"), RERUNS)})
+                continue
+            if is_corr:
+                corr.append(msg)
+            elif kind == "tsan":
+                if msg not in reported_tsan:
+                    reported_tsan.add(msg)
+                    report(msg + " (confirmed in %s of %d re-runs)" % (rerun_hits.get((cls, i), "other cases'"), RERUNS), feat, c, "", etxt)
             else:
-                ninconclusive.append(out[-200:])       # could not connect / initial picture timed out (machine load)
-            continue
-        if int(d.get("p_phasefails", 0)) > 0:
-            first = d.get("p_failed", "[?]")[1:].split(",")[0].rstrip("]")
-            op, kind, how = (first.split(":") + ["?", "?", "?"])[:3]
-            report("a staying client did not end up with the final framebuffer: after the application's last operation '%s' "
-                   "(no request outstanding) the client of kind %s (k0 Raw, k1 CopyRect+Raw, k2 CopyRect+Raw+RichCursor+PointerPos) sent one "
-                   "incremental request and got %s within 8 s; all failures of the run: %s" %
-                   (op, kind, "no update" if how == "noupdate" else "a malformed stream", d.get("p_failed")),
-                   {"defect": "final_contents", "after": op}, c, out)
-        else:
-            nphase_ok += 1
-        if d.get("hang") == "1":
-            report("watchdog: phase '%s' did not return" % d.get("phase"), {"defect": "hang", "phase": d.get("phase", "?")}, c, out, err)
-        elif d.get("crash") == "1":
-            feat = asan_features(err)
-            report("phases run crashed / AddressSanitizer reported %s" % (feat,), feat, c, out, asan_head(err))
+                report(msg + " (confirmed: the same scenario showed it in %s of %d re-runs with doubled time-outs)" %
+                       (rerun_hits.get((cls, i), "other cases'"), RERUNS), feat, c, out, etxt)
+    for u in unconfirmed[:10]:
+        vlib.log("C13 UNCONFIRMED (not reproduced in the majority of %d re-runs, not reported): %s" % (RERUNS, " ".join(u["what"].split())[:200]))
 
-    # sharing policy + teardown of the survivor, fragmented update with a mark mid-send
-    npol_ok = nfrag_ok = 0
-    def generic_fail(c, d, out, err):
-        if d.get("crash") == "1":
-            feat = asan_features(err)
-            report("run crashed / AddressSanitizer reported %s" % (feat,), feat, c, out, asan_head(err))
-            return True
-        if d.get("hang") == "1":
-            report("watchdog: phase '%s' did not return" % d.get("phase"), {"defect": "hang", "phase": d.get("phase", "?")}, c, out, err)
-            return True
-        return False
-    for c, (rc, out, err) in zip(policy, polres):
-        d = parse_result(out)
-        p = c[1].split()
-        if "p_policy_ok" not in d:
-            if not generic_fail(c, d, out, err):
-                ninconclusive.append(out[-200:])
-            continue
-        bad = False
-        if d.get("p_policy_ok") != "1":
-            bad = True
-            report("sharing policy under the background loop: alwaysShared=%s neverShared=%s dontDisconnect=%s, newcomer shared=%s: first client "
-                   "%s, newcomer %s (1 = served, 0 = closed by the server, -1 = silent)" % (p[3], p[4], p[5], p[6], d.get("p_a"), d.get("p_b")),
-                   {"defect": "sharing_policy"}, c, out)
-        if d.get("p2_torn_down_in_time") == "0":
-            bad = True
-            report("after the sharing decision (alwaysShared=%s neverShared=%s dontDisconnect=%s, newcomer shared=%s) a connection that ended "
-                   "(route %s: 0 peer close, 1 rfbCloseClient) was not torn down within 5 s: clientGoneHook ran %s times for %s clients" %
-                   (p[3], p[4], p[5], p[6], p[7], d.get("p2_gone"), d.get("p2_new")), {"defect": "not_torn_down"}, c, out)
-        if generic_fail(c, d, out, err):
-            bad = True
-        elif d.get("new") != d.get("gone") or d.get("dupgone", "0") != "0":
-            bad = True
-            report("clientGoneHook ran %s times for %s accepted clients" % (d.get("gone"), d.get("new")), {"defect": "gone_count"}, c, out)
-        npol_ok += 0 if bad else 1
-    for c, (rc, out, err) in zip(frag, fragres):
-        d = parse_result(out)
-        if "p_fragment_ok" not in d:
-            if not generic_fail(c, d, out, err):
-                ninconclusive.append(out[-200:])
-            continue
-        if d.get("p_rects_in_first_update") != "1" or d.get("p_write_blocked", "0") == "0":
-            ninconclusive.append("fragment scenario did not produce the blocked bounding-box update: " + out[-200:])
-        elif d.get("p_fragment_ok") != "1":
-            report("a staying client did not end up with the final framebuffer: an update of 60 separate squares went out as its bounding box to a "
-                   "slow reader; while the output thread was blocked in write() the application changed and marked a pixel inside the box; after the "
-                   "update and further incremental requests %s pixel(s) still differ (the mark placed during the send was lost)" % d.get("p_diff"),
-                   {"defect": "final_contents", "after": "mark_during_send"}, c, out)
-        else:
-            nfrag_ok += 1
-        generic_fail(c, d, out, err)
-
-    if len(ninconclusive) * 2 > len(phases):
-        ctx.violation("threaded event loop (sampled run): %d of %d final-contents runs could not even set their clients up: %s" %
-                      (len(ninconclusive), len(phases), ninconclusive[0]), {"defect": "crash", "site": "setup"},
-                      "script:\n" + "\n".join(phases[0]))
-
-    # TSan: lock-order-inversion / mutex misuse only (data races are outside this check)
-    tsan_bad = []
-    # Reports are classified by ROOT CAUSE, not by the sanitizer's wording.  The known iterator window
-    # (C13-N2: a client record is torn down by rfbClientConnectionGone while an iterating thread still
-    # works on it) shows as heap-use-after-free, "use of an invalid mutex", "unlock of an unlocked mutex",
-    # "destroy of a locked mutex", ... depending on where the two threads are.
-    ITER_USERS = ("rfbClientIteratorNext", "rfbIncrClientRef", "rfbDecrClientRef", "rfbReleaseClientIterator",
-                  "rfbMarkRegionAsModified", "rfbMarkRectAsModified", "rfbSendBell", "rfbSendServerCutText",
-                  "rfbNewFramebuffer", "rfbSetCursor", "rfbScheduleCopyRegion", "rfbDoCopyRegion", "rfbDoCopyRect",
-                  "rfbDefaultPtrAddEvent", "rfbRedrawAfterHideCursor", "rfbShutdownServer", "rfbScreenCleanup",
-                  "rfbGetClientIterator")
-    TEARDOWN_KINDS = ("heap-use-after-free", "use of an invalid mutex", "unlock of an unlocked mutex",
-                      "destroy of a locked mutex", "double lock", "read lock of a write locked mutex")
-    for c, (rc, out, err) in zip(tsan_cases, tres):
-        for r in err.split("=================="):
-            m = re.search(r"WARNING: ThreadSanitizer: ([^\n(]+)", r)
-            if not m:
-                continue
-            kind = m.group(1).strip()
-            if kind.startswith("data race") or kind.startswith("signal"):
-                continue
-            if kind.startswith("thread leak") and "rfbStartOnHoldClient" in r:
-                tsan_bad.append((kind, {"defect": "threads_not_reclaimed"}, c, r))   # ended client threads never joined
-                continue
-            # a mutex "created at rfbNewTCPOrUDPClient" lives in a client record
-            race_seen = any("rfbClientConnectionGone" in q and "ThreadSanitizer" in q and not q.lstrip().startswith("WARNING: ThreadSanitizer: data race")
-                            for q in err.split("=================="))
-            if any(kind.startswith(tk) for tk in TEARDOWN_KINDS) and \
-               ("rfbClientConnectionGone" in r or any(u in r for u in ITER_USERS) or
-                ("rfbNewTCPOrUDPClient" in r and (race_seen or not kind.startswith("unlock")))):
-                tsan_bad.append(("iterator window: " + kind,
-                                 {"defect": "heap-use-after-free", "freed_by": "rfbClientConnectionGone"}, c, r))
-                continue
-            tsan_bad.append((kind, {"defect": "tsan", "kind": kind.split()[0]}, c, r))
-    seen_k = set()
-    for kind, feat, c, r in tsan_bad:
-        if kind in seen_k:
-            continue
-        seen_k.add(kind)
-        report("ThreadSanitizer: " + kind, feat, c, "", r[:4000])
-
+    other = sorted(p for p in pairs_seen if ("G" not in p[:2] or p in model["table"]) and p not in model["table"] and p not in model["palette"])
     ctx.coverage.update(
-        evaluations=len(cases) + len(forced) + len(phases) + len(policy) + len(frag) + len(tres), distinct_nontrivial=len(pairs_seen) + nstress_ok + nphase_ok + npol_ok + nfrag_ok,
-        final_contents_phase_runs_ok=nphase_ok, policy_runs_ok=npol_ok, fragment_runs_ok=nfrag_ok, final_contents_phase_runs_inconclusive=len(ninconclusive),
+        evaluations=sum(hist.values()), distinct_nontrivial=len(pairs_seen) + sum(done.values()),
+        final_contents_phase_runs_ok=done["phases"], policy_runs_ok=done["policy"], fragment_runs_ok=done["fragment"],
+        final_contents_phase_runs_inconclusive=len(inconclusive),
+        speed_factor=round(factor, 2), calibration_ms=calib_ms, calibration_reference_ms=REF_MS,
+        unconfirmed_sampled_observations=unconfirmed[:20], confirmation_reruns=len(jobs),
+        confirmed_classes=sorted(confirmed),
         rule="PROOF PART: theorems of Props/Properties_C13.v hold for every schedule of the protocol models. SAMPLED PART: "
              "each evaluation is one stress run of the real background loop (own process, seeded yield injection at every "
              "lock/wait/socket call of the library, watchdog, ASan) or one forced-schedule replay or one TSan run; "
-             "distinct_nontrivial = distinct observed (held,acquired) mutex-class pairs + stress runs that completed all phases",
+             "distinct_nontrivial = distinct observed (held,acquired) mutex-class pairs + runs that completed all phases; "
+             "every time-out is multiplied by the measured speed factor; an observation that is not a known finding is reported "
+             "only when the same scenario shows it again in the majority of 3 fresh re-runs with doubled time-outs",
         samples=[cases[0], cases[-1], forced[0], phases[0]],
-        input_distribution=hist, stress_completed=nstress_ok,
+        input_distribution=hist, stress_completed=done["stress"],
         model_lock_table=sorted(model["table"]), observed_lock_pairs=sorted(pairs_seen),
         observed_pairs_not_in_model=other, forced_replays=forced_seen, model_witnesses=model["witness"],
-        tsan_reports_other_than_data_races=len(tsan_bad),
         proof_part="protocol model only (Session/ThreadsModel.v): for all schedules of the modelled threads",
         sampled_part="real scheduler, data races on plain fields, memory reclamation, kernel behaviour: randomised stress, labelled exploration",
         exhaustive=False)
+    if reduced:
+        ctx.coverage["reduced_sampling"] = reduced
     ctx.assumptions += [
         "the theorems are about the protocol model, not about the C text under the real scheduler (DESIGN.md section 8: C13 partial)",
         "finite fragments: 2 output threads (cursor), 1 iterator + 1 client thread (reference counting), 4 threads / 1 client (shutdown); the lock-order theorem is unbounded",
         "stress runs sample schedules; absence of a hang / ASan report in them proves nothing",
+        "sampled observations are confirmed by re-runs before they are reported: a defect that shows in fewer than half of the runs of one scenario "
+        "and in fewer than 4 scenarios is recorded as unconfirmed only",
     ]
-    if other or mism:
-        ctx.violation("correspondence Session/ThreadsModel.v <-> threaded loop no longer holds: " +
-                      "; ".join(mism + (["mutex-class pairs not in the model's table: %s" % other] if other else [])),
+    if corr:
+        corr = sorted(set(corr))
+        ctx.violation("correspondence Session/ThreadsModel.v <-> threaded loop no longer holds: " + "; ".join(corr),
                       {"kind": "correspondence"},
                       "correspondence: lock_table / th_cycles of Session/ThreadsModel.v vs observations of harness/vdrv_threads.c\n"
-                      "model table: %s\nobserved: %s\n%s" % (sorted(model["table"]), sorted(pairs_seen), "\n".join(mism)), no_input=True)
+                      "model table: %s\nobserved: %s\n%s" % (sorted(model["table"]), sorted(pairs_seen), "\n".join(corr)), no_input=True)
     if not proof_ok and not ctx.violations:
-        vlib.report_proof_failure(ctx, "Stress runs: %d completed without an unknown failure." % nstress_ok)
+        vlib.report_proof_failure(ctx, "Stress runs: %d completed without an unknown failure." % done["stress"])
 
 
 def replay(ctx, path):
@@ -417,6 +581,7 @@ def replay(ctx, path):
     lines = [l for l in body.split("\n") if l.strip()]
     cexe = vlib.build_harness("vdrv_threads", ["vdrv_threads.c"], wraps=WRAPS)
     vlib.prove(ctx, PROP_FILE, ["Extract/Extract_C13.vo"])
+    SPEED["factor"] = calibrate(cexe, 1)[0]
     (rc, out, err), = run_cases(cexe, [lines], ASAN_ENV, 1)
     print("implementation:\n" + out + "\nstderr tail:\n" + err[-2500:])
     ctx.coverage.update(evaluations=1, distinct_nontrivial=0, rule="replay (sampled: the schedule is not reproduced exactly unless forced)", samples=[lines])
